@@ -127,6 +127,17 @@ pub fn run(p: &Params) -> Report {
         let db = new_db();
         let sealed = fab.build(&db);
         let st = sealed.next_unsealed();
+        // a sibling chain: the same coins at the same heights, but another header at the coin's creation height, so the
+        // puzzle is another one and a proof made for the first chain is worth nothing there - whatever this process has
+        // already verified, accepted or refused elsewhere
+        let sibling = if coin_h != h - 1 && coin_h != h {
+            fab.extra_history.retain(|x| x.height.0 != coin_h);
+            fab.extra_history.push(fake_header(net, coin_h, 0x77));
+            let db2 = new_db();
+            Some(fab.build(&db2).next_unsealed())
+        } else {
+            None
+        };
         // header at the coin's creation height as the state knows it
         let hdr_at = |height: u64| -> Option<Header> { if height == h { Some(sealed.header()) } else { sealed.history(BlockHeight(height)) } };
         let corruption = r.below(12);
@@ -253,6 +264,27 @@ pub fn run(p: &Params) -> Report {
         };
         rep.eval();
         rep.nontrivial(fnv(&tx.hash_nosigs().0 .0));
+        // the sibling chain must refuse an honest mint of this chain, before ...
+        let mut sib_probe = |rep: &mut Report, when: &str| {
+            if let (Some(sib), true, Some((d, pb))) = (&sibling, label == "honest", &decoded) {
+                let sib_hdr = sib.clone().seal(None).history(BlockHeight(coin_h));
+                let valid_there = sib_hdr.map(|hd| ref_verify(pb, &puzzle_of(&hd, &coin_id).0, *d).is_some()).unwrap_or(false);
+                if !valid_there {
+                    let mut s2 = sib.clone();
+                    let t2 = tx.clone();
+                    rep.eval();
+                    rep.count(&format!("honest mints offered to a sibling chain with another header at the coin's height ({})", when));
+                    if let Ok(Ok(())) = guarded(move || s2.apply_tx(&t2)) {
+                        rep.violate(
+                            &format!("C18|invalid-mint-accepted|apply_tx|proof-for-another-chain,{}", when),
+                            "a mint whose proof was made for the puzzle of another chain (same coin, another header at its creation height) was accepted".into(),
+                            json!({"case_seed": case_seed, "net": format!("{:?}", net), "apply_height": apply_h, "coin_height": coin_h, "when": when, "tx_hex": tx_hex(&tx)}),
+                        );
+                    }
+                }
+            }
+        };
+        sib_probe(&mut rep, "before-this-chain-saw-it");
         let mut st2 = st.clone();
         let txc = tx.clone();
         // in half of the cases the block goes on after the mint: an ordinary transfer in a second batch
@@ -287,6 +319,8 @@ pub fn run(p: &Params) -> Report {
         if had_follow {
             rep.count("blocks continued with a second batch after the mint");
         }
+        // ... and after this chain has verified (and possibly accepted) it
+        sib_probe(&mut rep, "after-this-chain-verified-it");
         let erg_cls = match erg_choice {
             0 => "erg=reward+1",
             1 => "erg=reward",
